@@ -230,8 +230,11 @@ def check_list(out, seen, cx, name, idx, digs):
             if ic and not fr:
                 K.fail_once(out, seen, "is_fullrank_matA:false-for-complete-testers:%s" % tag, where)
             if (not ic) and fr:
-                K.fail_once(out, seen, "is_fullrank_matA:true-for-incomplete-testers:%s:%s" % (shape_class, tomo),
-                            "%s: matA is %dx%d, reference rank %d" % (where, nrows, nvar, rank))
+                if nrows >= nvar and okA and K.rank_verdict_in_band(matA, nvar):
+                    out.count("rank_verdict_at_noise_level")       # numpy's threshold vs a 1e-16 singular value
+                else:
+                    K.fail_once(out, seen, "is_fullrank_matA:true-for-incomplete-testers:%s:%s" % (shape_class, tomo),
+                                "%s: matA is %dx%d, reference rank %d" % (where, nrows, nvar, rank))
         if okA and isinstance(matA, np.ndarray) and matA.ndim == 2 and matA.size:
             r_lib, amb2 = K.robust_rank(matA)
             if ic and not amb2 and r_lib < nvar:
